@@ -244,7 +244,17 @@ func (f *frame) callStatic(callee *ssa.Function, bindings []Val, args []Val, st 
 	if f.spec != nil {
 		for _, a := range f.spec.Asserts {
 			if a.Callee == sk && a.Ordinal == ord {
-				env := f.callEnv(callee, nil, args, nil, st, st)
+				env := f.hereEnv(st)
+				for i := range args {
+					env.vars[fmt.Sprintf("arg%d", i)] = args[i]
+				}
+				for i, p := range callee.Params {
+					if i < len(args) {
+						if _, clash := env.resolveIdent(p.Name()); !clash {
+							env.vars[p.Name()] = args[i]
+						}
+					}
+				}
 				tags := a.Tags
 				if len(tags) == 0 {
 					tags = c.tags
@@ -253,6 +263,7 @@ func (f *frame) callStatic(callee *ssa.Function, bindings []Val, args []Val, st 
 			}
 		}
 	}
+	f.useHints(fmt.Sprintf("call %s#%d", sk, ord), f.hereEnv(st))
 	fs := eng.specFor(callee)
 	if fs != nil && !fs.Inline {
 		if fs.Trusted {
@@ -378,6 +389,14 @@ func (f *frame) callEnv(callee *ssa.Function, fs *FuncSpec, args []Val, results 
 	return &Env{c: c, vars: vars, cur: cur, old: old, pkg: pkg, guard: cur.reach}
 }
 
+// hereEnv is the environment of the current program point of the caller (source variables by name).
+func (f *frame) hereEnv(st *State) *Env {
+	c := f.c
+	b := f.curBlock
+	return &Env{c: c, vars: f.ghostVars(), cur: st, old: c.entry, pkg: f.fn.Pkg.Pkg, guard: st.reach,
+		lookup: func(name string) (Val, bool) { return f.lookupVarAt(name, b, f.curIdx) }}
+}
+
 // evalModLocs evaluates modifies expressions to location sets.
 func (env *Env) evalModLocs(exprs []ast.Expr, srcs []string) []modLoc {
 	var out []modLoc
@@ -427,7 +446,21 @@ func (f *frame) applyContract(fs *FuncSpec, callee *ssa.Function, sig *types.Sig
 	// ghost parameters: fresh symbols chosen by the caller (existential), constrained only by requires
 	for _, g := range fs.Ghosts {
 		gt := c.eng.resolveType(envPre.pkg, g.Type)
-		envPre.vars[g.Name] = c.freshVal("ghost_"+g.Name, gt)
+		bound := false
+		if f.spec != nil {
+			for _, b := range f.spec.Binds {
+				if b.Callee == name && b.Ordinal == f.callOrd[name] && b.Name == g.Name {
+					cenv := f.hereEnv(pre)
+					v := cenv.eval(b.Expr)
+					v.T = gt
+					envPre.vars[g.Name] = v
+					bound = true
+				}
+			}
+		}
+		if !bound {
+			envPre.vars[g.Name] = c.freshVal("ghost_"+g.Name, gt)
+		}
 	}
 	for i, r := range fs.Requires {
 		c.oblige("requires", fmt.Sprintf("%s.%d", name, i+1), clauseTags(r, c.tags), st.reach, envPre.evalBool(r.Expr), pos, "precondition of "+name+": "+r.Src)
